@@ -156,6 +156,10 @@ package traffic
 //@   let chainT = ite(trafficOf(s, peerAddress) == nil, 0, bigval(trafficOf(s, peerAddress).transferChainTraffic))
 //@   let sentR = ite(present(lastCheques, peerAddress), bigval(lastCheques[peerAddress].CumulativePayout), 0)
 //@   let recvT = ite(present(lastTransCheques, peerAddress), bigval(lastTransCheques[peerAddress].Cheque.CumulativePayout), 0)
+//@   # the persisted totals are read while the record is held: an update of the same record cannot slip
+//@   # in between the read and the merge
+//@   callassert ChequeStore.GetRetrieveTraffic persisted-total-read-under-the-record-lock: locked(trafficOf(s, peerAddress))
+//@   callassert ChequeStore.GetTransferTraffic persisted-total-read-under-the-record-lock: locked(trafficOf(s, peerAddress))
 //@   ensures record-exists: trafficOf(s, peerAddress) != nil && (rec0 != nil ==> trafficOf(s, peerAddress) == rec0)
 //@   ensures retrieve-covers-chain: result == nil ==> bigval(trafficOf(s, peerAddress).retrieveTraffic) >= chainR
 //@   ensures retrieve-covers-last-sent-cheque: result == nil && present(lastCheques, peerAddress) ==> bigval(trafficOf(s, peerAddress).retrieveTraffic) >= sentR
